@@ -1,274 +1,4 @@
-//! Driver: `pdbv check <ID> <quick|thorough>` | `pdbv shard ...` | `pdbv replay <ID> <file>`
-//! Exit codes: 0 held, 1 violation (prints VIOLATION line), 2 could not decide.
-
-use pdbv::{
-	props::{self, PropDef},
-	runner::{self, Ctx, ShardReport},
-};
-use std::{
-	cell::{Cell, RefCell},
-	path::{Path, PathBuf},
-	process::{Command, Stdio},
-	time::{Duration, Instant},
-};
-
-fn verif_root() -> PathBuf {
-	std::env::var("VERIF_ROOT").map(PathBuf::from).unwrap_or_else(|_| PathBuf::from("/verif"))
-}
-
-fn seed() -> u64 {
-	std::env::var("VERIF_SEED").ok().and_then(|s| s.trim().parse::<i64>().ok()).unwrap_or(0) as u64
-}
-
+//! Driver binary (see `pdbv::driver`).
 fn main() {
-	let args: Vec<String> = std::env::args().collect();
-	if args.len() < 2 {
-		eprintln!("usage: pdbv check <ID> <tier> | shard <ID> <tier> <i> <K> <out> | replay <ID> <file> | list");
-		std::process::exit(2);
-	}
-	runner::install_panic_hook();
-	runner::init_logging();
-	let code = match args[1].as_str() {
-		"list" => {
-			for p in props::all() {
-				println!("{} {}", p.id, p.level);
-			}
-			0
-		},
-		"check" => check(&args[2], args.get(3).map(|s| s.as_str()).unwrap_or("quick")),
-		"shard" => shard(&args[2], &args[3], args[4].parse().unwrap(), args[5].parse().unwrap(), Path::new(&args[6])),
-		"replay" => replay(&args[2], Path::new(&args[3])),
-		"lock-child" => pdbv::props::c18::child_main(&args[2]),
-		_ => {
-			eprintln!("unknown command");
-			2
-		},
-	};
-	std::process::exit(code);
-}
-
-fn find(id: &str) -> Option<PropDef> {
-	props::all().into_iter().find(|p| p.id == id)
-}
-
-fn make_ctx(p: &PropDef, tier: &str, shard: u64, shards: u64) -> Ctx {
-	let scratch = runner::scratch_root().join(format!("pdbv.{}.{}.{}", p.id, std::process::id(), shard));
-	let _ = std::fs::remove_dir_all(&scratch);
-	std::fs::create_dir_all(&scratch).expect("scratch");
-	Ctx {
-		prop: p.id.to_string(),
-		tier: tier.to_string(),
-		seed: seed(),
-		shard,
-		shards,
-		scratch,
-		replay_dir: verif_root().join("replays"),
-		report: RefCell::new(ShardReport::default()),
-		case_no: Cell::new(0),
-	}
-}
-
-fn shard(id: &str, tier: &str, i: u64, k: u64, out: &Path) -> i32 {
-	let p = match find(id) {
-		Some(p) => p,
-		None => return 2,
-	};
-	let ctx = make_ctx(&p, tier, i, k);
-	(p.run)(&ctx);
-	let _ = std::fs::remove_dir_all(&ctx.scratch);
-	let rep = ctx.report.into_inner();
-	let fps: Vec<u8> = rep.fps.iter().flat_map(|f| f.to_le_bytes()).collect();
-	std::fs::write(out.with_extension("fps"), fps).expect("write fps");
-	std::fs::write(out, serde_json::to_vec(&rep).unwrap()).expect("write shard report");
-	0
-}
-
-fn replay(id: &str, path: &Path) -> i32 {
-	let p = match find(id) {
-		Some(p) => p,
-		None => {
-			eprintln!("unknown property {id}");
-			return 2
-		},
-	};
-	let ctx = make_ctx(&p, "replay", 0, 1);
-	let r = (p.replay)(&ctx, path);
-	let _ = std::fs::remove_dir_all(&ctx.scratch);
-	match r {
-		Ok(()) => {
-			println!("replay of {} passed (property held on this case)", path.display());
-			0
-		},
-		Err(f) => {
-			println!("replay failed: {} -- {}", f.sig, f.detail);
-			if let Some(c) = &f.case_override {
-				if let Some(o) = c.get("only") {
-					println!("narrowed to: {}", o);
-				}
-			}
-			println!("VIOLATION property={} replay={}", id, path.display());
-			1
-		},
-	}
-}
-
-fn check(id: &str, tier: &str) -> i32 {
-	let start = Instant::now();
-	let p = match find(id) {
-		Some(p) => p,
-		None => {
-			eprintln!("unknown property {id}");
-			return 2
-		},
-	};
-	let k = (p.shards)(tier);
-	let exe = std::env::current_exe().expect("exe");
-	let tmp = runner::scratch_root().join(format!("pdbv.drv.{}.{}", id, std::process::id()));
-	let _ = std::fs::remove_dir_all(&tmp);
-	std::fs::create_dir_all(&tmp).expect("tmp");
-	let mut children = Vec::new();
-	let shuttle_exe = verif_root().join("target/shuttle/release/pdbs");
-	let mut exes: Vec<(&str, PathBuf)> = Vec::new();
-	if p.engine == 0 || p.engine == 2 {
-		exes.push(("h", exe.clone()));
-	}
-	if p.engine == 1 || p.engine == 2 {
-		exes.push(("s", shuttle_exe));
-	}
-	// with two engines the shards are split between them
-	let per_engine = if exes.len() == 2 { k / 2 } else { k };
-	for (tag, e) in &exes {
-		for i in 0..per_engine {
-			let out = tmp.join(format!("shard{tag}{i}.json"));
-			let child = Command::new(e)
-				.args(["shard", id, tier, &i.to_string(), &per_engine.to_string(), out.to_str().unwrap()])
-				.stdin(Stdio::null())
-				.spawn()
-				.expect("spawn shard");
-			children.push((i, child, out));
-		}
-	}
-	let limit = Duration::from_secs((p.watchdog_s)(tier));
-	let mut undecided = Vec::new();
-	let mut merged = ShardReport::default();
-	for (i, mut child, out) in children {
-		let status = loop {
-			match child.try_wait() {
-				Ok(Some(s)) => break Some(s),
-				Ok(None) => {
-					if start.elapsed() > limit {
-						let _ = child.kill();
-						let _ = child.wait();
-						break None
-					}
-					std::thread::sleep(Duration::from_millis(20));
-				},
-				Err(_) => break None,
-			}
-		};
-		match status {
-			Some(s) if s.success() => match std::fs::read(&out).ok().and_then(|b| serde_json::from_slice::<ShardReport>(&b).ok()) {
-				Some(mut rep) => {
-					if let Ok(b) = std::fs::read(out.with_extension("fps")) {
-						for c in b.chunks_exact(8) {
-							rep.fps.insert(u64::from_le_bytes(c.try_into().unwrap()));
-						}
-					}
-					merged.merge(rep);
-				},
-				None => undecided.push(format!("shard {i}: no report")),
-			},
-			Some(s) => undecided.push(format!("shard {i}: exit status {s}")),
-			None => undecided.push(format!("shard {i}: watchdog ({}s) - killed", limit.as_secs())),
-		}
-	}
-	let _ = std::fs::remove_dir_all(&tmp);
-	// stale scratch of killed shards
-	if let Ok(rd) = std::fs::read_dir(runner::scratch_root()) {
-		for e in rd.flatten() {
-			let n = e.file_name().to_string_lossy().to_string();
-			if n.starts_with(&format!("pdbv.{}.", id)) {
-				let _ = std::fs::remove_dir_all(e.path());
-			}
-		}
-	}
-
-	// known findings
-	let known = props::load_known(&verif_root());
-	let mut violations = Vec::new();
-	let mut known_hits: Vec<String> = merged.known_findings.clone();
-	for f in merged.failures.iter_mut() {
-		if let Some(kf) = known.iter().find(|kf| kf.property == id && kf.status == "known" && kf.signature == f.signature) {
-			f.known = true;
-			let line = format!("{} [{}]", kf.what, kf.signature);
-			if !known_hits.contains(&line) {
-				known_hits.push(line);
-			}
-		} else {
-			violations.push(f.clone());
-		}
-	}
-	for k in &known_hits {
-		println!("KNOWN-FINDING: property={} {}", id, k);
-	}
-	let wall = start.elapsed().as_secs_f64();
-	let distinct = merged.fps.len() as u64 + merged.sub_nontrivial;
-	let mut rule = merged.rules.join(" | ");
-	if rule.is_empty() {
-		rule = p.rule.to_string();
-	} else {
-		rule = format!("{} || {}", p.rule, rule);
-	}
-	let mut assumptions: Vec<String> = p.assumptions.iter().map(|s| s.to_string()).collect();
-	assumptions.extend(merged.notes.iter().cloned());
-	for u in &undecided {
-		assumptions.push(format!("INCONCLUSIVE: {u}"));
-	}
-	let evidence = serde_json::json!({
-		"property_id": id,
-		"tier": if tier == "thorough" { "thorough" } else { "quick" },
-		"seed": seed() as i64,
-		"level": p.level,
-		"wall_s": (wall * 100.0).round() / 100.0,
-		"violations": violations.len(),
-		"assumptions": assumptions,
-		"coverage": {
-			"evaluations": merged.evaluations,
-			"distinct_nontrivial": distinct,
-			"rule": rule,
-			"samples": merged.samples,
-			"generated_cases": merged.cases,
-			"nontrivial_cases": merged.nontrivial_cases,
-			"labels": merged.labels,
-			"counters": merged.counters,
-			"excluded_known": merged.excluded_known,
-			"shrink_runs": merged.shrink_runs,
-			"exhaustive": merged.exhaustive,
-			"shards": k,
-			"known_findings_reported": known_hits,
-		},
-	});
-	// runs against deliberately mutated trees (bin/seedtest) must not overwrite the evidence
-	let evdir = std::env::var("PDBV_EVIDENCE_DIR").map(PathBuf::from).unwrap_or_else(|_| verif_root().join("evidence"));
-	let _ = std::fs::create_dir_all(&evdir);
-	let _ = std::fs::write(evdir.join(format!("{id}.json")), serde_json::to_string_pretty(&evidence).unwrap());
-
-	println!(
-		"{id} {tier}: {} evaluations in {} generated cases, {} distinct non-trivial, {:.1}s, labels {:?}",
-		merged.evaluations, merged.cases, distinct, wall, merged.labels
-	);
-	if !violations.is_empty() {
-		for v in &violations {
-			println!("failure: {} -- {}", v.signature, v.detail);
-			println!("VIOLATION property={} replay={}", id, v.replay);
-		}
-		return 1
-	}
-	if !undecided.is_empty() {
-		for u in &undecided {
-			println!("INCONCLUSIVE: {u}");
-		}
-		return 2
-	}
-	0
+	pdbv::driver::main_entry();
 }
